@@ -83,6 +83,8 @@ func sameValue(a, b ssa.Value) bool {
 		if y, ok := b.(*ssa.BinOp); ok && x.Op == y.Op {
 			return sameValue(x.X, y.X) && sameValue(x.Y, y.Y)
 		}
+	case *ssa.FieldAddr, *ssa.IndexAddr:
+		return sameAddr(a, b)
 	case *ssa.Const:
 		if y, ok := b.(*ssa.Const); ok {
 			xi, ok1 := constInt(x)
@@ -309,4 +311,18 @@ func offsetGuardRule(r *Run) {
 	if len(bad) == 0 {
 		r.ok("module:offset-access-behind-its-guard", "", fmt.Sprintf("%d armed offset accesses, each reachable only through an edge that bounds it", armed))
 	}
+}
+
+// literalIs: v is the constant string s or []byte(s).
+func literalIs(v ssa.Value, s string) bool {
+	v = stripValue(v)
+	if c, ok := constString(asConst(v)); ok {
+		return c == s
+	}
+	if sl, ok := v.(*ssa.Slice); ok {
+		if c, ok := constString(asConst(stripValue(sl.X))); ok {
+			return c == s
+		}
+	}
+	return false
 }
